@@ -571,7 +571,7 @@ fn feel_time_zone(me: &FeelDateTime) -> Option<String> {
 }
 
 fn date_time_offset(date: (i32, u32, u32), time: (u32, u32, u32, u32), offset: i32) -> Option<DateTime<FixedOffset>> {
-  if let LocalResult::Single(date_time) = FixedOffset::east(offset)
+  if let LocalResult::Single(date_time) = FixedOffset::east_opt(offset)?
     .ymd_opt(date.0, date.1, date.2)
     .and_hms_nano_opt(time.0, time.1, time.2, time.3)
   {
